@@ -195,6 +195,10 @@ class Registry:
         from . import pymodel
         return pymodel.symbolic_comprehension(self, E, spec, gen, sub, elt, node)
 
+    def filtered_comprehension(self, E, spec, gen, sub, elt, node):
+        from . import pymodel
+        return pymodel.filtered_comprehension(self, E, spec, gen, sub, elt, node)
+
     def str_of_int(self, E, v):
         """A4: str(i) for i >= 0 is a non-empty digit string ds with str.to_int(ds) = i"""
         ds = E.str("ds")
